@@ -129,11 +129,11 @@ claim("C15", "proof",
       "(SRT ACK 16..20, NAK top bit, data top bit clear, retransmit bit 2 of byte 4, SRTLA ACK 4-byte header + BE u32s); round trip: builder and parser tables agree on offset, width and endianness of every field.",
       "DESIGN.md 5 C15", "Round trip is decided as table agreement (offset/width/endianness per field), which is necessary and, for these fixed-layout codecs, sufficient up to the correctness of to_be_bytes/from_be_bytes.")
 claim("C18", "other",
-      "panic reachability + abstract interpretation for totality, construction-site tables of error codes and responses with their path conditions, interval analysis of every value reaching the timeout atomic, field-identity chain setter -> atomic -> snapshot -> status key, sibling comparison of the stdin and socket dispatchers",
+      "panic reachability + abstract interpretation for totality, construction-site tables of error codes and responses with their path conditions, interval analysis of every value reaching the timeout atomic, field-identity chain setter -> atomic -> snapshot -> status key, per-dispatcher return-value formulas (BDD equivalence) and must-pass-through of the method handlers",
       "All may-panic sites reachable from dispatch / dispatch_async / Response::to_json / SharedStats are discharged (serde_json of the listed infallible value types is the one accepted unwrap); "
-      "each error code is built at its enumerated sites under its condition; the dispatcher returns None exactly for a request without id and applies the method before that test; every Response has version 2.0, "
+      "each error code is built at its enumerated sites under its condition (-32700 only where the line failed to parse, -32600 only for a wrong version), decided per dispatcher from path formulas; each dispatcher returns Some exactly when the line is not empty and (it could not be parsed or the request has an id), and every parsed right-version request reaches a method handler, id or not; every Response has version 2.0, "
       "exactly one of result/error and the request's id; every store to the timeout atomic lies in [1000,60000] and the handler echoes the stored value; each setter's atomic is the one snapshot() and get_status read; "
-      "the two entry points run the same pre-checks with the same codes and call handle_method identically for non-subscription methods.",
+      "the two entry points call handle_method identically for non-subscription methods; the socket handler dispatches the line it just read.",
       "DESIGN.md 5 C18", "serde_json's parser/serialiser are trusted (external crate); JSON text equality of the two entry points is decided as same construction sites, not as string equality.")
 
 claim("C17", "other",
